@@ -47,6 +47,7 @@ from abc import abstractmethod
 
 import column
 import depend
+import objtypes
 import records
 import relation
 from sort_key import make_sort_key
@@ -108,7 +109,15 @@ class LookupMapColumn(NoValueColumn):
     cause the LookupMapColumn to be invalidated for the corresponding rows, and brought up to date
     during formula recomputation by calling this method. It shold take O(1) time per affected row.
     """
-    affected_keys = self._mapping.update_record(rec)
+    try:
+      affected_keys = self._mapping.update_record(rec)
+    except (objtypes.CellError, depend.CircularRefError):
+      # A cell that is part of the key holds an error (reading it raises CellError, or the stored
+      # CircularRefError itself), so this record has no key: it must not stay
+      # in the index under the key it had before.
+      affected_keys = self._mapping.remove_row_id(rec._row_id)
+      self._relation_tracker.invalidate_affected_keys(affected_keys)
+      raise
     self._relation_tracker.invalidate_affected_keys(affected_keys)
 
   def _do_fast_empty_lookup(self):
@@ -150,10 +159,14 @@ class LookupMapColumn(NoValueColumn):
     # .sorted_versions entry for the given sort_spec. Used when only sort-by columns change.
     # Returns the set of affected keys.
     new_keys = set(self._mapping.get_new_keys_iter(rec))
-    for key in new_keys:
-      row_ids = self._mapping.lookup_by_key(key, default=LookupSet())
-      row_ids.sorted_versions.pop(sort_spec, None)
+    self._reset_sorted_versions_for_keys(new_keys, sort_spec)
     return new_keys
+
+  def _reset_sorted_versions_for_keys(self, keys, sort_spec):
+    for key in keys:
+      if key is not None:
+        row_ids = self._mapping.lookup_by_key(key, default=LookupSet())
+        row_ids.sorted_versions.pop(sort_spec, None)
 
   def unset(self, row_id):
     # This is called on record removal, and is necessary to deal with removed records.
@@ -221,8 +234,16 @@ class SortedLookupMapColumn(NoValueColumn):
 
   def _recalc_rec_method(self, rec, _table):
     # Create dependencies on all the sort columns.
-    for col_id in self._sort_col_ids:
-      getattr(rec, col_id)
+    try:
+      for col_id in self._sort_col_ids:
+        getattr(rec, col_id)
+    except (objtypes.CellError, depend.CircularRefError):
+      # A sort cell holds an error. The order cached for this record's keys is out of date all the
+      # same, so forget it (those who look it up will get the error when sorting anew).
+      affected_keys = self._lookup_col._get_keys(rec._row_id)
+      self._lookup_col._reset_sorted_versions_for_keys(affected_keys, self._sort_spec)
+      self._relation_tracker.invalidate_affected_keys(affected_keys)
+      raise
 
     affected_keys = self._lookup_col._reset_sorted_versions(rec, self._sort_spec)
     self._relation_tracker.invalidate_affected_keys(affected_keys)
